@@ -6,7 +6,7 @@ HEADER = '''(* C05  Register constraints are an invariant of every checked-opera
    Proved: InvB is preserved by EVERY checked operation - typed set, bit set, bit clear, block write (across area borders) and sanitise, accepted
    or refused - and hence by every history of them; under it every value a get delivers satisfies its register's constraint.
    Outside the invariant by construction: registers with the always-failing constraint (their default only validates during initialisation). *)'''
-IMPORTS = '''From Ufw Require Import Base.Bits Model.RegTable Proof.RegLemmas Proof.RegInitLemmas Proof.RegInvariant Proof.RegMemory Proof.RegBlockInv Proof.RegInitInv.
+IMPORTS = '''From Ufw Require Import Base.Bits Model.RegTable Proof.RegLemmas Proof.RegInitLemmas Proof.RegInvariant Proof.RegMemory Proof.RegBlockInv Proof.RegInitInv Proof.RegSanitise.
 From Coq Require Import Bool Lia.
 Local Open Scope N_scope.'''
 ITEMS = [
@@ -15,6 +15,9 @@ ITEMS = [
  ('C05_history_get_all', 'history_get_all', 'after any such history every value a get delivers satisfies the constraint of its register'),
  ('C05_block_write_preserves', 'block_write_preserves', 'one block write, accepted or refused, across area borders'),
  ('C05_sanitise_preserves', 'sanitise_preserves', 'one sanitise run'),
+ ('C05_sanitise_after_corruption', 'sanitise_after_corruption', 'the sanitise clause: from a table satisfying the invariant, through ARBITRARY out-of-band corruption of the stored words, a successful sanitise leads back to the invariant; every register whose (corrupted) content decodes and satisfies its constraint keeps it, every other register holds its default, all touched marks are cleared'),
+ ('C05_sanitise_restores', 'sanitise_restores', 'the same from any structurally intact table (no assumption about the stored values)'),
+ ('C05_corruption_keeps_structure', 'corrupted_sinv', 'what corruption cannot change: flags, byte order, register list, geometry, word width'),
  ('C05_history_invariant', 'history_invariant', 'the invariant survives every history of checked typed operations with well-typed operands'),
  ('C05_history_get', 'history_get', 'after any such history every value a get delivers satisfies the constraint of its register'),
  ('C05_invariant_means', 'inv_get', 'what the invariant gives a reader'),
